@@ -43,10 +43,10 @@ class Scope(list[Any]):
         self.from_with: bool = False
 
     def _find_binding_index(self, key: str) -> int | None:
-        from nix_manipulator.expressions.binding import Binding
+        from nix_manipulator.expressions.binding import Binding, same_attr_name
 
         for index, item in enumerate(self):
-            if isinstance(item, Binding) and item.name == key:
+            if isinstance(item, Binding) and same_attr_name(item.name, key):
                 return index
         return None
 
